@@ -6,9 +6,18 @@
 Reads simple-dns/src/dns/{mod,header,name,resource_record}.rs, dns/rdata/*.rs and
 simple-mdns/src/resource_record_manager.rs, and writes one Lean file of plain `def`s (namespace
 `Dns.Gen`).  `Props/Tie.lean` proves by evaluation that these tables equal the hand-written model's.
-Nothing here knows the expected answer: every value is derived from the source text, and source
-text that is not understood makes the run fail (exit 2) with the file, function and statement.
-The output is only rewritten when its content changes.  Standard library only.
+Nothing here knows the expected answer: every value is derived from the source text.  Standard library only.
+
+Degradation is item by item.  The items are: every numeric constant; the PacketFlag table; `typeCodes`;
+for every flat record type its `parse:<TYPE>` (schema and fields), `write:<TYPE>` and `compressed:<TYPE>`;
+every enum table; every arms table together with its default arm; the two simple-mdns constants.
+Source text that is not understood unties THAT item only: it is reported on stdout as
+`translate.py: UNTIED <item>: <reason>` (file, function, statement), it is listed in `def untied`, and it
+is emitted as `none` (constant, default arm), as `[]` (whole table) or left out of the schema tables with
+its TYPE code in `untiedParse` / `untiedWrite` / `untiedCompressed`.  Every other item is generated as
+usual and Props/Tie.lean still compares it with the model.  The exit code is 0 whenever the output could
+be written, 2 for I/O errors or when the source tree is not there at all.
+The output is only rewritten when its content changes.
 
 How a body is read: the source is normalised (comments and string contents dropped, whitespace removed
 except between two words), split into statements, and each statement is matched against a table of
@@ -33,9 +42,35 @@ class Refuse(Exception):
     pass
 
 CURRENT = ['']      # what is being translated (for messages about errors that carry no location)
+UNTIED = []         # (item, reason): items whose source text was not understood
+TIED = []           # names of the items that were translated
+ERR = 'Err(_)'      # a default arm that is an error (no variant can have this name; `none` means untied)
 
 def refuse(where, msg):
     raise Refuse(f"{where}: {msg}")
+
+class Untied:
+    """the result of an extraction that did not understand the source text"""
+    def __init__(self, reason): self.reason = ' '.join(str(reason).split())
+
+def guarded(fn):
+    """fn() or, if the source text is refused or has a shape no pattern anticipated, an Untied"""
+    try: return fn()
+    except Refuse as e: return Untied(e)
+    except OSError: raise
+    except Exception as e:
+        return Untied(f"{CURRENT[0]}: unexpected source text ({type(e).__name__}: {e})")
+
+def record(name, value):
+    """book-keeping of one item: value or Untied"""
+    if isinstance(value, Untied): UNTIED.append((name, value.reason))
+    else: TIED.append(name)
+    return value
+
+def attempt(name, fn, default=None):
+    """extraction of one independent item: what is not understood unties this item only"""
+    v = record(name, guarded(fn))
+    return default if isinstance(v, Untied) else v
 
 # ---------------------------------------------------------------- normalisation of Rust source
 
@@ -342,8 +377,12 @@ def write_body(where, text, body, struct, compressed, schemas):
             elif kind in ('sub', 'subc') and re.match(r"Name<'\w+>$", ty):
                 fields.append((('name', kind == 'subc'), m.group(1)))
             elif kind in ('sub', 'subc') and re.match(r"(\w+)<'\w+>$", ty) and re.match(r"(\w+)<", ty).group(1) in schemas:
-                other = schemas[re.match(r"(\w+)<", ty).group(1)]
-                fields.extend(other['comp' if kind == 'subc' and other['comp'] is not None else 'write'])
+                oname = re.match(r"(\w+)<", ty).group(1)
+                other = schemas[oname]
+                key = 'comp' if kind == 'subc' and other['comp'] is not None else 'write'
+                if isinstance(other[key], Untied):
+                    refuse(where, f"`{st}` hands over to {oname}, whose {'write_compressed_to' if key == 'comp' else 'write_to'} is untied")
+                fields.extend(other[key])
             elif kind == 'helper' and compressed is not None:
                 hb = block_after(text, rf'\bfn {m.group(1)}\b', where)
                 fields.extend(write_body(f"{where} -> fn {m.group(1)}", text, hb, struct, None, schemas))
@@ -373,28 +412,49 @@ def write_body(where, text, body, struct, compressed, schemas):
 
 # ---------------------------------------------------------------- one RR type
 
-def translate_type(name, text, schemas, label):
-    """parse / write / write_compressed schemas of the RR type `name` whose (compact) source is `text`"""
+def translate_type(name, text, schemas, label, pre):
+    """parse / write / write_compressed schemas of the RR type `name` whose (compact) source is `text`:
+    {'parse': fields, 'write': fields, 'comp': fields or None (no override)}, each of them possibly Untied.
+    `text` may itself be Untied; `pre` holds what is required of the dispatch in rdata_enum! (None or Untied)."""
     CURRENT[0] = f"{label}: {name}"
-    struct = struct_fields(text, name, f"{label}: struct {name}")
-    impl = block_after(text, rf"impl(?:<[^>]*>)? ?WireFormat<[^>]*>for {name}\b(?:<[^>]*>)?\{{", f"{label}: impl WireFormat for {name}")
     w = f"{label}: {name}::"
-    pbody = block_after(impl, r'\bfn parse\b', w + "parse")
-    pf, tail = parse_body(w + "parse", pbody)
-    pf = bind(w + "parse", pf, tail, struct)
-    wf = write_body(w + "write_to", text, block_after(impl, r'\bfn write_to\b', w + "write_to"), struct, False, schemas)
-    cbody = block_after(impl, r'\bfn write_compressed_to\b', w, required=False)
-    cf = None if cbody is None else write_body(w + "write_compressed_to", text, cbody, struct, True, schemas)
+    def common():
+        if isinstance(text, Untied): raise Refuse(text.reason)
+        struct = struct_fields(text, name, f"{label}: struct {name}")
+        impl = block_after(text, rf"impl(?:<[^>]*>)? ?WireFormat<[^>]*>for {name}\b(?:<[^>]*>)?\{{", f"{label}: impl WireFormat for {name}")
+        return struct, impl
+    c = guarded(common)
+    if isinstance(c, Untied): return {'parse': c, 'write': c, 'comp': c}
+    struct, impl = c
+    def parse():
+        pf, tail = parse_body(w + "parse", block_after(impl, r'\bfn parse\b', w + "parse"))
+        return bind(w + "parse", pf, tail, struct)
+    def write():
+        return write_body(w + "write_to", text, block_after(impl, r'\bfn write_to\b', w + "write_to"), struct, False, schemas)
+    def comp():
+        cbody = block_after(impl, r'\bfn write_compressed_to\b', w, required=False)
+        return None if cbody is None else write_body(w + "write_compressed_to", text, cbody, struct, True, schemas)
+    raw = {'parse': guarded(parse), 'write': guarded(write), 'comp': guarded(comp)}
+    for k in raw:
+        if isinstance(pre[k], Untied) and not isinstance(raw[k], Untied): raw[k] = pre[k]
+    cf = raw['comp']
     # a name is compressible iff write_compressed_to hands that field to Name::write_compressed_to
-    cflag = {f: fk[1] for fk, f in (cf or []) if fk[0] == 'name'}
+    cflag = {} if isinstance(cf, Untied) else {f: fk[1] for fk, f in (cf or []) if fk[0] == 'name'}
     def flagged(fields):
+        if fields is None or isinstance(fields, Untied): return fields
         out = []
         for fk, f in fields:
             if fk[0] == 'splice':
-                out.extend(schemas[fk[1]]['parse'] if fk[1] in schemas else refuse(w, f"delegates to unknown type {fk[1]}"))
-            else: out.append((('name', cflag.get(f, False)) if fk[0] == 'name' else fk, f))
+                if fk[1] not in schemas: return Untied(f"{w} delegates to unknown type {fk[1]}")
+                if isinstance(schemas[fk[1]]['parse'], Untied): return Untied(f"{w} delegates to {fk[1]}, whose parse is untied")
+                out.extend(schemas[fk[1]]['parse'])
+            elif fk[0] == 'name':
+                if isinstance(cf, Untied):
+                    return Untied(f"{w} whether the name `{f}` is compressed is decided by write_compressed_to, which is untied ({cf.reason})")
+                out.append((('name', cflag.get(f, False)), f))
+            else: out.append((fk, f))
         return out
-    return {'parse': flagged(pf), 'write': flagged(wf), 'comp': None if cf is None else flagged(cf)}
+    return {k: flagged(v) for k, v in raw.items()}
 
 # ---------------------------------------------------------------- constants and enums
 
@@ -443,87 +503,155 @@ def lean_list(items, per_line=1, indent='  '):
     rows = [', '.join(items[i:i + per_line]) for i in range(0, len(items), per_line)]
     return '[\n' + ',\n'.join(indent + r for r in rows) + ']'
 
+NOT_FLAT = ('OPT', 'IPSECKEY', 'NULL')     # modelled function by function, not by a schema
+
 def generate(repo):
+    del UNTIED[:], TIED[:]
     dns = os.path.join(repo, 'simple-dns/src/dns')
-    read = lambda p: compact(open(os.path.join(repo, p), encoding='utf-8').read())
-    mod, header, name_rs = read('simple-dns/src/dns/mod.rs'), read('simple-dns/src/dns/header.rs'), read('simple-dns/src/dns/name.rs')
-    rr_rs, opt_rs = read('simple-dns/src/dns/resource_record.rs'), read('simple-dns/src/dns/rdata/opt.rs')
-    rmod, macros = read('simple-dns/src/dns/rdata/mod.rs'), read('simple-dns/src/dns/rdata/macros.rs')
-    mdns = read('simple-mdns/src/resource_record_manager.rs')
+    if not os.path.isdir(os.path.join(dns, 'rdata')):
+        raise OSError(f"{os.path.join(dns, 'rdata')}: the sources of simple-dns are not there")
+    cache = {}
+    def read(p, raw=False):
+        """(compact) text of a source file; a file that is not there unties the items read from it"""
+        if p not in cache:
+            try: cache[p] = open(os.path.join(repo, p), encoding='utf-8').read()
+            except (FileNotFoundError, NotADirectoryError, IsADirectoryError): cache[p] = None
+            cache[p, 'compact'] = None if cache[p] is None else compact(cache[p])
+        if cache[p] is None: refuse(p, "file not found")
+        return cache[p] if raw else cache[p, 'compact']
+    MOD, HEADER, NAME = 'simple-dns/src/dns/mod.rs', 'simple-dns/src/dns/header.rs', 'simple-dns/src/dns/name.rs'
+    RR, OPT = 'simple-dns/src/dns/resource_record.rs', 'simple-dns/src/dns/rdata/opt.rs'
+    RMOD, MACROS = 'simple-dns/src/dns/rdata/mod.rs', 'simple-dns/src/dns/rdata/macros.rs'
+    MDNS = 'simple-mdns/src/resource_record_manager.rs'
 
     CURRENT[0] = 'rdata/mod.rs, rdata/macros.rs'
     # 1. type codes: the rdata_enum! list, `impl RR for X { const TYPE_CODE }`, rr_wrapper! lines
     W = 'rdata/mod.rs'
-    variants = [re.match(r'\w+', v).group(0) for v in split_top(block_after(rmod, r'macros::rdata_enum!\{', W))]
-    for pat in (r'\$i::TYPE_CODE=>TYPE::\$i,', r'TYPE::\$i=>\$i::TYPE_CODE,', r'NULL::TYPE_CODE=>TYPE::NULL,',
-                r'TYPE::\$i=>RData::\$i\(\$i::parse\(data,position\)\?\),', r'RData::\$i\(data\)=>data\.write_to\(out\),',
-                r'RData::\$i\(data\)=>data\.write_compressed_to\(out,name_refs\),'):
-        if not re.search(pat, macros): refuse('rdata/macros.rs: rdata_enum!', f"expected arm /{pat}/ not found")
-    wrappers = {m.group(1): (m.group(2), num(m.group(3)))
-                for m in re.finditer(r'macros::rr_wrapper!\{(?:#\[[^\]]*\])*(\w+):(\w+)=(\w+)\}', rmod)}
-    if rmod.count('macros::rr_wrapper!') != len(wrappers): refuse(W, "an rr_wrapper! invocation was not understood")
-    macros_raw = open(os.path.join(dns, 'rdata/macros.rs'), encoding='utf-8').read()
-    files, code = {}, {}
+    def macro_arms(*pats):
+        def check():
+            for pat in pats:
+                if not re.search(pat, read(MACROS)): refuse('rdata/macros.rs: rdata_enum!', f"expected arm /{pat}/ not found")
+        return check
+    variants = guarded(lambda: [re.match(r'\w+', v).group(0) for v in split_top(block_after(read(RMOD), r'macros::rdata_enum!\{', W))])
+    wrappers = guarded(lambda: {m.group(1): (m.group(2), num(m.group(3)))
+                                for m in re.finditer(r'macros::rr_wrapper!\{(?:#\[[^\]]*\])*(\w+):(\w+)=(\w+)\}', read(RMOD))})
+    if isinstance(wrappers, Untied): wrappers = {}
+    files, code = {}, {}       # whatever TYPE_CODE can be read, type by type
     for fn in sorted(os.listdir(os.path.join(dns, 'rdata'))):
         if fn.endswith('.rs') and fn not in ('mod.rs', 'macros.rs'):
-            text = read(f'simple-dns/src/dns/rdata/{fn}')
+            text = guarded(lambda: read(f'simple-dns/src/dns/rdata/{fn}'))
+            if isinstance(text, Untied): continue
             for m in re.finditer(r"impl(?:<[^>]*>)? ?RR for (\w+)(?:<[^>]*>)?\{const TYPE_CODE:u16=(\w+);\}", text):
-                files[m.group(1)], code[m.group(1)] = (fn, text), num(m.group(2))
+                c = guarded(lambda: num(m.group(2)))
+                if not isinstance(c, Untied): files[m.group(1)], code[m.group(1)] = (fn, text), c
     for t, (_, c) in wrappers.items(): code[t] = c
-    missing = [v for v in variants + ['NULL'] if v not in code]
-    if missing: refuse(W, f"no TYPE_CODE found for {missing}")
-    type_codes = [(v, code[v]) for v in variants + ['NULL']]
+    def get_type_codes():
+        if isinstance(variants, Untied): raise Refuse(variants.reason)
+        macro_arms(r'\$i::TYPE_CODE=>TYPE::\$i,', r'TYPE::\$i=>\$i::TYPE_CODE,', r'NULL::TYPE_CODE=>TYPE::NULL,')()
+        if read(RMOD).count('macros::rr_wrapper!') != len(wrappers): refuse(W, "an rr_wrapper! invocation was not understood")
+        missing = [v for v in variants + ['NULL'] if v not in code]
+        if missing: refuse(W, f"no TYPE_CODE found for {missing}")
+        return [(v, code[v]) for v in variants + ['NULL']]
+    type_codes = attempt('typeCodes', get_type_codes, [])
 
-    # 2./3. schemas of the flat types (wrapped types first, so that wrappers can splice them)
-    NOT_FLAT = ('OPT', 'IPSECKEY', 'NULL')     # modelled function by function, not by a schema
+    # 2./3. schemas of the flat types (wrapped types first, so that wrappers can splice them), item by item
+    pre = {'parse': guarded(macro_arms(r'TYPE::\$i=>RData::\$i\(\$i::parse\(data,position\)\?\),')),
+           'write': guarded(macro_arms(r'RData::\$i\(data\)=>data\.write_to\(out\),')),
+           'comp': guarded(macro_arms(r'RData::\$i\(data\)=>data\.write_compressed_to\(out,name_refs\),'))}
+    if isinstance(variants, Untied):    # no list of variants: every type whose TYPE_CODE was found, none of them tied
+        flat = [v for v in sorted(code, key=lambda v: code[v]) if v not in NOT_FLAT]
+        u = Untied(f"the list of the RData variants was not understood ({variants.reason})")
+        pre = {'parse': u, 'write': u, 'comp': u}
+    else:
+        flat = [v for v in variants if v not in NOT_FLAT]
     schemas = {}
-    for v in sorted((v for v in variants if v not in NOT_FLAT), key=lambda v: v in wrappers):
+    for v in sorted(flat, key=lambda v: v in wrappers):
         if v in wrappers:
-            inst = macros_raw.replace('$t', v).replace('$w', wrappers[v][0]).replace('$c', str(wrappers[v][1]))
-            text = block_after(compact(inst), r'macro_rules!rr_wrapper\{\([^)]*\)=>', 'rdata/macros.rs: rr_wrapper!')
-            schemas[v] = translate_type(v, text, schemas, f"rdata/macros.rs: rr_wrapper! {v}")
+            def inst():
+                raw = read(MACROS, raw=True).replace('$t', v).replace('$w', wrappers[v][0]).replace('$c', str(wrappers[v][1]))
+                return block_after(compact(raw), r'macro_rules!rr_wrapper\{\([^)]*\)=>', 'rdata/macros.rs: rr_wrapper!')
+            schemas[v] = translate_type(v, guarded(inst), schemas, f"rdata/macros.rs: rr_wrapper! {v}", pre)
+        elif v in files:
+            schemas[v] = translate_type(v, files[v][1], schemas, f"rdata/{files[v][0]}", pre)
         else:
-            schemas[v] = translate_type(v, files[v][1], schemas, f"rdata/{files[v][0]}")
-    flat = [v for v in variants if v not in NOT_FLAT]
+            u = Untied(f"{W}: no `impl RR for {v} {{ const TYPE_CODE: u16 = <literal>; }}` found in rdata/*.rs")
+            schemas[v] = {'parse': u, 'write': u, 'comp': u}
+    untied_codes = {'parse': [], 'write': [], 'comp': []}
+    for v in flat:
+        for key, prefix in (('parse', 'parse'), ('write', 'write'), ('comp', 'compressed')):
+            if isinstance(record(f"{prefix}:{v}", schemas[v][key]), Untied) and v in code:
+                untied_codes[key].append(code[v])
     table = lambda key, what: lean_list([f"({code[v]}, [{', '.join(what(e) for e in schemas[v][key])}])" for v in flat
-                                         if schemas[v][key] is not None])
+                                         if schemas[v][key] is not None and not isinstance(schemas[v][key], Untied)])
     kinds, names = (lambda e: lean_kind(e[0])), (lambda e: f'"{e[1]}"')
 
-    # 5. constants
+    # 5. constants, one by one
     CURRENT[0] = 'constants and enums (dns/mod.rs, header.rs, name.rs, resource_record.rs, rdata/opt.rs, simple-mdns)'
-    flags = [(m.group(1), num(m.group(2))) for m in re.finditer(r'const (\w+)=(\w+);', block_after(mod, r'struct PacketFlag:u16\{', 'mod.rs: PacketFlag'))]
-    m = re.search(r'fn add_cached_resource\b', mdns) and re.search(r'let ttl=if resource\.cache_flush\{(\d+)\}else\{resource\.ttl\};let \w+=ExpirationInfo::new\(ttl\);', mdns)
-    if not m: refuse('simple-mdns/src/resource_record_manager.rs: add_cached_resource', "TTL selection for cache-flush records not recognised")
-    m2 = re.search(r'let expire_at=added\+Duration::from_(secs|millis)\(ttl\);', mdns)
-    if not m2: refuse('simple-mdns/src/resource_record_manager.rs: ExpirationInfo::new', "expiry computation not recognised")
-    C, WM = const, 'mod.rs'
-    consts = [('maxLabel', C(mod, 'MAX_LABEL_LENGTH', WM), 'd'), ('maxName', C(mod, 'MAX_NAME_LENGTH', WM), 'd'),
-              ('maxCharStr', C(mod, 'MAX_CHARACTER_STRING_LENGTH', WM), 'd'), ('maxNull', C(mod, 'MAX_NULL_LENGTH', WM), 'd'),
-              ('maxSvcParam', C(mod, 'MAX_SVC_PARAM_VALUE_LENGTH', WM), 'd'),
-              ('pointerMask', C(name_rs, 'POINTER_MASK', 'name.rs'), 'x'), ('pointerMaskU16', C(name_rs, 'POINTER_MASK_U16', 'name.rs'), 'x'),
-              ('maxPointerOffset', C(name_rs, 'MAX_POINTER_OFFSET', 'name.rs'), 'x'),
-              ('opcodeMask', C(header, 'OPCODE_MASK', 'header.rs'), 'x'), ('reservedMask', C(header, 'RESERVED_MASK', 'header.rs'), 'x'),
-              ('responseCodeMask', C(header, 'RESPONSE_CODE_MASK', 'header.rs'), 'x'),
-              ('optRcodeMask', C(opt_rs, 'RCODE_MASK', 'rdata/opt.rs'), 'x'), ('optVersionMask', C(opt_rs, 'VERSION_MASK', 'rdata/opt.rs'), 'x'),
-              ('cacheFlushBit', C(rr_rs, 'CACHE_FLUSH', 'resource_record.rs'), 'x'),
-              ('cacheFlushTtl', int(m.group(1)), 'd'), ('ttlUnitMillis', 1000 if m2.group(1) == 'secs' else 1, 'd')]
+    def get_flags():
+        block = block_after(read(MOD), r'struct PacketFlag:u16\{', 'mod.rs: PacketFlag')
+        flags = [(m.group(1), num(m.group(2))) for m in re.finditer(r'\bconst (\w+)=(\w+);', block)]
+        if not flags or len(flags) != len(re.findall(r'\bconst\b', block)):
+            refuse('mod.rs: PacketFlag', "a constant is not of the form `const NAME = <literal>;`")
+        return flags
+    flags = attempt('packetFlags', get_flags, [])
+    def get_flush_ttl():
+        m = re.search(r'fn add_cached_resource\b', read(MDNS)) and re.search(r'let ttl=if resource\.cache_flush\{(\d+)\}else\{resource\.ttl\};let \w+=ExpirationInfo::new\(ttl\);', read(MDNS))
+        if not m: refuse('simple-mdns/src/resource_record_manager.rs: add_cached_resource', "TTL selection for cache-flush records not recognised")
+        return int(m.group(1))
+    def get_ttl_unit():
+        m2 = re.search(r'let expire_at=added\+Duration::from_(secs|millis)\(ttl\);', read(MDNS))
+        if not m2: refuse('simple-mdns/src/resource_record_manager.rs: ExpirationInfo::new', "expiry computation not recognised")
+        return 1000 if m2.group(1) == 'secs' else 1
+    C = lambda path, name, where: (lambda: const(read(path), name, where))
+    consts = [(n, attempt(n, fn), f) for n, fn, f in [
+              ('maxLabel', C(MOD, 'MAX_LABEL_LENGTH', 'mod.rs'), 'd'), ('maxName', C(MOD, 'MAX_NAME_LENGTH', 'mod.rs'), 'd'),
+              ('maxCharStr', C(MOD, 'MAX_CHARACTER_STRING_LENGTH', 'mod.rs'), 'd'), ('maxNull', C(MOD, 'MAX_NULL_LENGTH', 'mod.rs'), 'd'),
+              ('maxSvcParam', C(MOD, 'MAX_SVC_PARAM_VALUE_LENGTH', 'mod.rs'), 'd'),
+              ('pointerMask', C(NAME, 'POINTER_MASK', 'name.rs'), 'x'), ('pointerMaskU16', C(NAME, 'POINTER_MASK_U16', 'name.rs'), 'x'),
+              ('maxPointerOffset', C(NAME, 'MAX_POINTER_OFFSET', 'name.rs'), 'x'),
+              ('opcodeMask', C(HEADER, 'OPCODE_MASK', 'header.rs'), 'x'), ('reservedMask', C(HEADER, 'RESERVED_MASK', 'header.rs'), 'x'),
+              ('responseCodeMask', C(HEADER, 'RESPONSE_CODE_MASK', 'header.rs'), 'x'),
+              ('optRcodeMask', C(OPT, 'RCODE_MASK', 'rdata/opt.rs'), 'x'), ('optVersionMask', C(OPT, 'VERSION_MASK', 'rdata/opt.rs'), 'x'),
+              ('cacheFlushBit', C(RR, 'CACHE_FLUSH', 'resource_record.rs'), 'x'),
+              ('cacheFlushTtl', get_flush_ttl, 'd'), ('ttlUnitMillis', get_ttl_unit, 'd')]]
 
-    # 6. enum tables
+    # 6. enum tables; an arms table and its default arm are one item
     I = lambda n, tr: rf'impl {tr}<u16>for {n}\{{'
-    cls_arms, cls_def = match_arms(mod, I('CLASS', 'TryFrom'), 'mod.rs: TryFrom<u16> for CLASS')
-    q_arms, q_def = match_arms(mod, I('QTYPE', 'TryFrom'), 'mod.rs: TryFrom<u16> for QTYPE')
-    qc_arms, qc_def = match_arms(mod, I('QCLASS', 'TryFrom'), 'mod.rs: TryFrom<u16> for QCLASS')
-    if not (q_def or '').startswith('match TYPE::from(') or not (qc_def or '').startswith('CLASS::try_from('):
-        refuse('mod.rs: QTYPE/QCLASS', "default arm does not fall through to TYPE / CLASS")
-    op_arms, op_def = match_arms(mod, I('OPCODE', 'From'), 'mod.rs: From<u16> for OPCODE')
-    rc_arms, rc_def = match_arms(mod, I('RCODE', 'From'), 'mod.rs: From<u16> for RCODE')
+    def enum(item, n):
+        return attempt(item, lambda: enum_table(read(MOD), n, f'mod.rs: enum {n}') or refuse(f'mod.rs: enum {n}', "no variants found"), [])
+    def arms(item, n, tr, falls_to=None):
+        def get():
+            a, d = match_arms(read(MOD), I(n, tr), f'mod.rs: {tr}<u16> for {n}')
+            if falls_to and not (d or '').startswith(falls_to):
+                refuse(f'mod.rs: {tr}<u16> for {n}', f"default arm does not fall through to `{falls_to}`")
+            return a, (ERR if d is None else d)
+        return attempt(item, get, ([], None))
+    cls_table, op_table, rc_table = enum('classTable', 'CLASS'), enum('opcodeTable', 'OPCODE'), enum('rcodeTable', 'RCODE')
+    cls_arms, cls_def = arms('classArms', 'CLASS', 'TryFrom')
+    q_arms, _ = arms('qtypeSpecials', 'QTYPE', 'TryFrom', 'match TYPE::from(')
+    qc_arms, _ = arms('qclassSpecials', 'QCLASS', 'TryFrom', 'CLASS::try_from(')
+    op_arms, op_def = arms('opcodeArms', 'OPCODE', 'From')
+    rc_arms, rc_def = arms('rcodeArms', 'RCODE', 'From')
     sn = lambda xs: lean_list([f'("{a}", {b})' for a, b in xs], 4)
     ns = lambda xs: lean_list([f'({a}, "{b}")' for a, b in xs], 4)
     opt = lambda d: 'none' if d is None else f'some "{d}"'
+    nat = lambda v, f: 'none' if v is None else f"some {v if f == 'd' else '0x%X' % v}"
+    nats = lambda xs: '[' + ', '.join(str(x) for x in xs) + ']'
 
     L = ["/- generated by tools/translate.py — do not edit",
          "   (tables derived from the Rust sources of simple-dns / simple-mdns; see Props/Tie.lean) -/",
          "import SimpleDnsModel.Model.RData", "namespace Dns.Gen", "",
+         "/-- items whose source text the translator did not understand (constants: `none`; whole tables: `[]`;",
+         "`parse:T` / `write:T` / `compressed:T`: the row of T is absent from the schema tables below) -/",
+         f"def untied : List String := {lean_list([chr(34) + n + chr(34) for n, _ in UNTIED], 4)}"]
+    L += [f"-- UNTIED {n}: {r}" for n, r in UNTIED]
+    L += ["/-- TYPE codes of the flat types whose `fn parse` was not understood -/",
+          f"def untiedParse : List Nat := {nats(untied_codes['parse'])}",
+          "/-- TYPE codes of the flat types whose `fn write_to` was not understood -/",
+          f"def untiedWrite : List Nat := {nats(untied_codes['write'])}",
+          "/-- TYPE codes of the flat types with a `fn write_compressed_to` that was not understood (or of which it is",
+          "not known whether they have one) -/",
+          f"def untiedCompressed : List Nat := {nats(untied_codes['comp'])}", "",
          "/-- variants of `rdata_enum!` (and NULL) with their `TYPE_CODE` -/",
          f"def typeCodes : List (String × Nat) := {sn(type_codes)}", "",
          "/-- wire reads of each flat type's `fn parse`, in the order of the bytes read -/",
@@ -535,16 +663,18 @@ def generate(repo):
          "/-- the struct field each value read by `fn parse` is stored in -/",
          f"def parseFields : List (Nat × List String) := {table('parse', names)}", "",
          "/-- the struct field each value written by `fn write_to` comes from -/",
-         f"def writeFields : List (Nat × List String) := {table('write', names)}", ""]
-    L += [f"def {n} : Nat := {v if f == 'd' else '0x%X' % v}" for n, v, f in consts]
+         f"def writeFields : List (Nat × List String) := {table('write', names)}", "",
+         "/- numeric constants (`none`: untied) -/"]
+    L += [f"def {n} : Option Nat := {nat(v, f)}" for n, v, f in consts]
     L += ["", "/-- the constants of `bitflags! PacketFlag` -/", f"def packetFlags : List (String × Nat) := {sn([(a, b) for a, b in flags])}",
           "def packetFlagsAll : Nat := packetFlags.foldl (fun acc e => acc ||| e.2) 0", "",
-          f"def classTable : List (String × Nat) := {sn(enum_table(mod, 'CLASS', 'mod.rs: enum CLASS'))}",
+          f"/- default arms: `some \"{ERR}\"` is an error arm, `some \"V\"` the variant V, `none` untied (with its arms table) -/",
+          f"def classTable : List (String × Nat) := {sn(cls_table)}",
           f"def classArms : List (Nat × String) := {ns(cls_arms)}", f"def classDefault : Option String := {opt(cls_def)}",
           f"def qtypeSpecials : List (Nat × String) := {ns(q_arms)}", f"def qclassSpecials : List (Nat × String) := {ns(qc_arms)}",
-          f"def opcodeTable : List (String × Nat) := {sn(enum_table(mod, 'OPCODE', 'mod.rs: enum OPCODE'))}",
+          f"def opcodeTable : List (String × Nat) := {sn(op_table)}",
           f"def opcodeArms : List (Nat × String) := {ns(op_arms)}", f"def opcodeDefault : Option String := {opt(op_def)}",
-          f"def rcodeTable : List (String × Nat) := {sn(enum_table(mod, 'RCODE', 'mod.rs: enum RCODE'))}",
+          f"def rcodeTable : List (String × Nat) := {sn(rc_table)}",
           f"def rcodeArms : List (Nat × String) := {ns(rc_arms)}", f"def rcodeDefault : Option String := {opt(rc_def)}",
           "", "end Dns.Gen", ""]
     return '\n'.join(L)
@@ -556,21 +686,18 @@ def main():
     ap.add_argument('--out', default=os.path.join(here, '..', 'lean/SimpleDnsModel/Generated/FromSource.lean'))
     args = ap.parse_args()
     t0 = time.time()
+    out = os.path.normpath(args.out)
     try:
         text = generate(args.repo)
-    except Refuse as e:
-        print(f"translate.py: cannot translate {e}", file=sys.stderr); return 2
+        old = open(out, encoding='utf-8').read() if os.path.exists(out) else None
+        if old != text:
+            os.makedirs(os.path.dirname(out), exist_ok=True)
+            with open(out, 'w', encoding='utf-8') as f: f.write(text)
     except OSError as e:
         print(f"translate.py: {e}", file=sys.stderr); return 2
-    except Exception as e:     # source text of a shape none of the patterns anticipated
-        print(f"translate.py: cannot translate {CURRENT[0]}: unexpected source text ({type(e).__name__}: {e})", file=sys.stderr)
-        return 2
-    out = os.path.normpath(args.out)
-    old = open(out, encoding='utf-8').read() if os.path.exists(out) else None
-    if old != text:
-        os.makedirs(os.path.dirname(out), exist_ok=True)
-        with open(out, 'w', encoding='utf-8') as f: f.write(text)
-    print(f"translate.py: {out} {'unchanged' if old == text else 'written'} ({time.time() - t0:.2f} s)")
+    for item, reason in UNTIED: print(f"translate.py: UNTIED {item}: {reason}")
+    print(f"translate.py: {out} {'unchanged' if old == text else 'written'} ({time.time() - t0:.2f} s); "
+          f"tied {len(TIED)} items, untied {len(UNTIED)}")
     return 0
 
 if __name__ == '__main__':
